@@ -156,7 +156,7 @@ PROPS = {
     },
     "C13": {
         "modules": ["PgBifrost.Props.C13"],
-        "components": ["rabbit", "rabbitconn"],
+        "components": ["rabbit", "rabbitconn", "rabbitstop"],
         "required_theorems": ["PgBifrost.Props.C13.rabbit_written_all_confirmed", "PgBifrost.Props.C13.rabbit_written_all_confirmed_run",
                               "PgBifrost.Props.C13.rabbit_retry_republishes_unconfirmed", "PgBifrost.Props.C13.rabbit_no_wedge_on_close",
                               "PgBifrost.Props.C13.rabbit_spec_ok_of_fixed", "PgBifrost.Props.C13.rabbit_attempt_as_in_source", "PgBifrost.Props.C13.rabbit_loop_as_in_source"],
@@ -199,7 +199,7 @@ PROPS = {
     },
     "C17": {
         "modules": ["PgBifrost.Props.C17"],
-        "components": ["pipefault", "kinesis", "s3", "kafka", "rabbit", "retrypolicy", "runner", "clientstop", "plumbing"],
+        "components": ["pipefault", "kinesis", "s3", "kafka", "rabbit", "retrypolicy", "runner", "clientstop", "plumbing", "rabbitstop"],
         "required_theorems": ["PgBifrost.Props.C17.fault_never_unsafe_ack", "PgBifrost.Props.C17.single_shutdown_handler", "PgBifrost.Props.C17.runner_hands_the_handler_to_every_stage",
                               "PgBifrost.Props.C17.runner_starts_every_stage", "PgBifrost.Props.C17.retry_budget_gives_up", "PgBifrost.Props.C17.retry_policies_give_up",
                               "PgBifrost.Props.C17.retry_policies_complete", "PgBifrost.Props.C17.retry_unset_stop_never_gives_up",
